@@ -320,6 +320,36 @@ func ruleCacheMiddleware(c *Ctx, a *serverAnchors, want map[string]bool) {
 				if !okNext {
 					report("store-gate", "Cacheable is reached without checking that the downstream handler succeeded on "+where)
 				}
+			} else if pr.Exit == "return" && len(pr.Results) == 1 && pr.Results[0].IsNil() {
+				// a successful fetch is published as cacheable unless the proxy recorded no lifetime or built
+				// no response: nothing else (the client having gone away, say) may turn it into hit-for-pass
+				nextOK := false
+				for _, l := range pr.Conds {
+					if l.Atom.Op == "eq" && l.Pol && l.Atom.Args[1].IsNil() && l.Atom.Args[0].Op == "call" && strings.Contains(l.Atom.Args[0].Name, ".Next") {
+						nextOK = true
+					}
+				}
+				if nextOK {
+					excused := false
+					for _, e := range pr.Events {
+						if e.Kind != "call" || e.Result == nil {
+							continue
+						}
+						switch e.Callee {
+						case a.getMax:
+							if iv := pr.Facts.Interval(e.Result); iv.Hi != nil && iv.Hi.Sign() <= 0 {
+								excused = true
+							}
+						case a.getResp:
+							if k, v := pr.Facts.Decide(eqTerm(e.Result, nilTerm(e.Result.Type))); k && v {
+								excused = true
+							}
+						}
+					}
+					if !excused {
+						report("cacheable-is-stored", "the downstream handler succeeded, yet the fetcher leaves without Cacheable although neither 'no lifetime' nor 'no response' is established: a cacheable response turns the key into hit-for-pass (every waiter and later request goes upstream) on "+where)
+					}
+				}
 			}
 		} else {
 			report("ticket-discharge", "the handler does not distinguish the fetching state on "+where)
@@ -334,7 +364,7 @@ func ruleCacheMiddleware(c *Ctx, a *serverAnchors, want map[string]bool) {
 		return
 	}
 	for _, r := range []string{"pass-methods", "forward-once", "label", "completion-only-by-fetcher", "entry-of-request-key", "cache-binding", "hit-does-not-forward",
-		"hit-serves-stored", "hit-age", "ticket-discharge", "hit-for-pass-period", "store-gate"} {
+		"hit-serves-stored", "hit-age", "ticket-discharge", "hit-for-pass-period", "store-gate", "cacheable-is-stored"} {
 		if want != nil && !want[r] {
 			continue
 		}
